@@ -256,13 +256,19 @@ func runC14Query(t *testing.T, c explore.Case) (res explore.Result) {
 			return
 		}
 		if limEmpty {
-			time.Sleep(3 * time.Hour)
+			// one token per hour: a query whose every send waits for budget needs n hours plus the
+			// last resend interval
+			time.Sleep(time.Duration(n+1) * time.Hour)
 		} else {
 			time.Sleep(time.Duration(n+3) * c14D)
 		}
 		synctest.Wait()
 		if !returned {
-			res.Viol = fmt.Sprintf("no-return: Query did not return within %v of virtual time after the last event", time.Duration(n+3)*c14D)
+			horizon := time.Duration(n+3) * c14D
+			if limEmpty {
+				horizon = time.Duration(n+1) * time.Hour
+			}
+			res.Viol = fmt.Sprintf("no-return: Query did not return within %v of virtual time after the last event", horizon)
 			return
 		}
 		// classify
